@@ -21,6 +21,7 @@ EXPECT = {
  ('c1b1f2e', 1): [('LAYOUT', 'C10', 'LAYOUT/encoding.NewUint64MapBuilder#1')],
  ('8abd2f7', 2): [('CLIENT-STEPPED-LOOP', 'C23', 'CLIENT-STEPPED-LOOP/api/functions.samplePoints#1')],
  ('4284048', 1): [('MUTATOR-ERR', 'C26', 'MUTATOR-ERR/ingest.(ingestedYAML).Apply#5')],
+ ('f8e960c', 1): [('DIVISOR-POSITIVE', 'C23', 'DIVISOR-POSITIVE/api/functions.divide#1')],
  ('0b184d3', 1): None,  # covered by mutants/RESTORE.json
  ('0b184d3', 2): None,
  ('5adedaa', 1): [('STOP-AFTER-ERROR', 'C28', 'STOP-AFTER-ERROR/encoding.(*Uint64Map).EachItem#1'), ('ERR-RETURNED', 'C28', 'ERR-RETURNED/encoding.(*Uint64Map).EachItem#1')],
